@@ -83,9 +83,19 @@ def run(lines, out, args):
         if mname not in sys.modules:
             sys.modules[mname] = types.ModuleType(mname)
     sys.modules["zi"].gen = gen = sys.modules["zi.gen"]
-    events = []
-    R.notify = lambda e: events.append(("R:" if type(e).__name__ == "Registered" else "U:") + type(e.object).__name__.replace("Registration", ""))
-    st = dict(ifs={}, c=None, vals={}, serial=0)
+    evstack = [[]]           # the events of the call being executed (a call made by an event subscriber has a list of its own)
+    st = dict(ifs={}, c=None, vals={}, serial=0, want=None, armed=None, nested_out=None)
+    MUTATORS = ("regU", "unregU", "regA", "unregA", "regS", "unregS", "regH", "unregH")
+
+    def notify(e):
+        tag = ("R:" if type(e).__name__ == "Registered" else "U:") + type(e.object).__name__.replace("Registration", "")
+        evstack[-1].append(tag)
+        armed = st["armed"]
+        if armed is not None and tag[0] == armed[0]:
+            # an event subscriber that reacts by making a call of its own, right here
+            st["armed"] = None
+            st["nested_out"] = do_line(armed[1])
+    R.notify = notify
 
     def comp(s):
         if s.strip() == "N":
@@ -104,10 +114,12 @@ def run(lines, out, args):
                 return k
         return "?"
 
-    for line in lines:
+    def do_line(line):
         f = [x.strip() for x in line.split("|")]
         op = f[0]
         got = "ok"
+        events = []
+        evstack.append(events)
         try:
             ifs = st["ifs"]
             c = st["c"]
@@ -134,7 +146,6 @@ def run(lines, out, args):
                 want = " ".join(str(inv(x)) for x in ifs[int(f[1])].__sro__)
                 got = "ok" if want == f[2] else "sro-mismatch " + want
             elif op in ("regU", "unregU", "regA", "unregA", "regS", "unregS", "regH", "unregH"):
-                del events[:]
                 ret = "None"
                 try:
                     v = comp(f[1])
@@ -206,7 +217,6 @@ def run(lines, out, args):
                     raise ValueError("persist: only directly after reset")
                 st["c"] = _picklable_classes()()
             elif op == "reload":
-                del events[:]
                 c2 = pickle.loads(pickle.dumps(c, pickle.HIGHEST_PROTOCOL))
                 assert c2 is not c and c2._v_utility_registrations_cache is None
                 st["c"] = c2
@@ -332,4 +342,31 @@ def run(lines, out, args):
                 got = "bad"
         except Exception as e:  # noqa
             got = "err %s %s" % (type(e).__name__, str(e)[:60].replace("\n", " "))
-        out.write(got + "\n")
+        finally:
+            evstack.pop()
+        return got
+
+    i = 0
+    while i < len(lines):
+        line = lines[i]
+        i += 1
+        op = line.split("|")[0].strip()
+        if op == "nest":
+            # `nest|R` / `nest|U`: the NEXT call has a subscriber that, on the first Registered / Unregistered event it is sent,
+            # makes the call of the line after it.  Every event is delivered when the call that emits it has done all its
+            # writing, so the outcome is that of the two calls made one after the other: each line answers for its own call
+            st["want"] = line.split("|")[1].strip()
+            out.write("ok\n")
+            continue
+        if st["want"] and op in MUTATORS and i < len(lines) and lines[i].split("|")[0].strip() in MUTATORS:
+            st["armed"], st["want"], st["nested_out"] = (st["want"], lines[i]), None, None
+            got = do_line(line)
+            st["armed"] = None
+            out.write(got + "\n")
+            if st["nested_out"] is not None:
+                out.write(st["nested_out"] + " NESTED\n")
+                st["nested_out"] = None
+                i += 1
+            continue
+        st["want"] = None
+        out.write(do_line(line) + "\n")
